@@ -15,6 +15,7 @@ import (
 
 	"verif/hist"
 	"verif/run"
+	"verif/sim"
 	"verif/txgen"
 )
 
@@ -59,8 +60,12 @@ func execute(h *run.H, tr *hist.Trace, draw func(w *hist.World, m *Monitor, i in
 		}
 		gen := w.R[0].DumpMap()
 		dirty := w.C.Height != 0
+		carried := map[string]bool{}
+		for _, pp := range tr.Params.PreProposals {
+			carried[string(pp.ID())] = true
+		}
 		for k := range gen {
-			if strings.HasPrefix(k, "prop") {
+			if strings.HasPrefix(k, "prop") && !carriedKey(k, carried) {
 				dirty = true
 			}
 		}
@@ -69,10 +74,20 @@ func execute(h *run.H, tr *hist.Trace, draw func(w *hist.World, m *Monitor, i in
 			continue
 		}
 		var bad *Violation
-		mon, bad = NewMonitor(tr.Params, gen)
+		mon, bad = NewMonitor(tr.Params, gen, sim.GenesisProposals(tr.Params, w.G.U))
 		if bad != nil {
 			w.Close()
 			return bad, cs
+		}
+		// the shared generator's bookkeeping learns the carried proposals as if it had created them
+		for _, pp := range tr.Params.PreProposals {
+			if pm := mon.Props[string(pp.ID())]; pm != nil {
+				pi := &hist.PropInfo{ID: pp.ID(), Type: pm.Rec.Type, Proposer: pp.Proposer % len(w.G.U.Users), FundDL: pm.Rec.FundingDeadline, VoteDL: pm.Rec.VotingDeadline}
+				for _, f := range pp.Funds {
+					pi.Funders = append(pi.Funders, f.User%len(w.G.U.Users))
+				}
+				w.Props = append(w.Props, pi)
+			}
 		}
 		break
 	}
@@ -131,17 +146,34 @@ func execute(h *run.H, tr *hist.Trace, draw func(w *hist.World, m *Monitor, i in
 	return nil, cs
 }
 
+// carriedKey reports whether a governance record key belongs to one of the proposals the genesis carries.
+func carriedKey(k string, carried map[string]bool) bool {
+	for id := range carried {
+		if strings.Contains(k, id) {
+			return true
+		}
+	}
+	return false
+}
+
 // classes renders the case's statistics as class labels and the non-triviality key.
 func classes(cs *caseStats, profile string) (string, []string) {
 	var cl []string
 	cl = append(cl, "mode-"+profile)
-	terminal := 0
+	terminal, imported := 0, 0
 	set := map[string]bool{}
 	if cs.mon != nil {
 		for _, id := range cs.mon.Order {
 			p := cs.mon.Props[id]
 			ps := p.PathString()
-			if Terminal(p.Stage) {
+			if p.Imported != "" {
+				imported++
+				cl = append(cl, "genesis-proposal:"+p.Imported+":"+ps)
+				if p.Rec.Type == 0x20 && p.Imported == "passed" && p.Stage == SZ {
+					cl = append(cl, "genesis-passed-config-update-applied")
+				}
+			}
+			if Terminal(p.Stage) && !(p.Imported != "" && len(p.Path) == 1) { // carried in a terminal stage: nothing was reached
 				terminal++
 				set[ps] = true
 				cl = append(cl, "path:"+ps)
@@ -152,12 +184,17 @@ func classes(cs *caseStats, profile string) (string, []string) {
 						cl = append(cl, "config-update-failed-vote")
 					}
 				}
+			} else if Terminal(p.Stage) {
+				cl = append(cl, "carried-terminal:"+ps)
 			} else {
 				cl = append(cl, "open:"+ps)
 			}
 		}
 		if len(cs.mon.Order) >= 2 {
 			cl = append(cl, "several-proposals")
+		}
+		if imported > 0 {
+			cl = append(cl, "genesis-carries-proposals")
 		}
 		m := cs.mon
 		add := func(n int, name string) {
@@ -173,6 +210,9 @@ func classes(cs *caseStats, profile string) (string, []string) {
 		add(m.SnapshotDrift, "vote-with-power-changed-since-snapshot")
 		add(m.StrangerPublicOK, "public-expire-or-finalize-succeeded")
 		add(m.EmptySnapshots, "voting-began-with-empty-snapshot")
+		add(m.ImportedVotes, "genesis-vote-opinion-imported-as-recorded")
+		add(m.ImportedFunds, "genesis-fund-record-imported-as-recorded")
+		add(m.FinalDueMet, "decided-proposal-finalised-in-time")
 	}
 	for k, n := range cs.okKinds {
 		for i := 0; i < n; i++ {
